@@ -96,7 +96,9 @@ def rule_R1(ctx, R):
             for g in st0.guards:
                 if p.guards.get(g, (0, 0, "live"))[2] != "dropped":
                     bad = "guard part %s is not dropped before the key is returned" % ctx.arg_name(f, g)
-            if p.ev("FORGET"):
+            # forgetting a *hold* is fine when its lock has been released by hand (checked above: every lock the guard owned
+            # is U); forgetting anything else (the key, a carrier) is not
+            if any(not (e.get("ty") and e["ty"].get("k") == "adt" and e["ty"].get("path") in R.holdtypes) for e in p.ev("FORGET")):
                 bad = "a value is mem::forget-ed in an unlock API"
             v = p.value
             t = I.optype.get(v[1]) if v and v[0] == "op" else None
@@ -135,7 +137,7 @@ def rule_R7(ctx, R):
                 continue
             held = [r for r, m in p.locks.items() if m in ("W", "R")
                     and any(e["k"] in ("ACQ", "TRY") and e.get("recv") == r for e in p.events)]
-            if held and "ACQ-GUARD" not in R.roles(f):
+            if held and not (R.roles(f) & {"ACQ-GUARD", "REACQ"}):
                 bad = "returns while %s is still held, but takes no owned ThreadKey: keys it was lent are usable again at once (path: %s)" % (
                     ", ".join(ctx.arg_name(f, r) for r in held), p.trace()[:300])
                 break
@@ -582,6 +584,21 @@ def rule_R6(ctx, R):
     return res
 
 
+def _x4_gap(events, r, carrier_root=None):
+    """release / re-acquisition of r between the consumed and the returned guard - unless the window is handed to the caller
+    as a place to run code (a user callable invoked between the release and the re-acquisition, as in
+    `unlocked(guard, |key| ..)`): then the two sections are two sections by the API's own contract"""
+    gap = [e for e in events if e["k"] in ("REL", "ACQ", "TRY") and e.get("recv") == r]
+    if not gap:
+        # a guard part dropped as a whole (generic collection guards) followed by a new acquisition through the same receiver
+        return gap
+    rel = next((e for e in gap if e["k"] == "REL"), None)
+    acq = next((e for e in gap if e["k"] in ("ACQ", "TRY") and (rel is None or e.get("i", 0) > rel.get("i", 0))), None)
+    if rel is not None and acq is not None and any(e["k"] == "USER" and rel.get("i", 0) < e.get("i", 0) < acq.get("i", 0) for e in events):
+        return []
+    return gap
+
+
 def rule_X4(ctx, R):
     """a guard handed in and a guard handed back are one continuous hold."""
     res = RuleResult("X4", "continuity: a safe function that consumes a guard (key carrier or hold) and returns a guard never releases "
@@ -623,7 +640,7 @@ def rule_X4(ctx, R):
             if not val_contains(p.value, lambda x: x[0] == "agg" and x[1] == "adt" and x[2] in carriers and x[2] != KEY):
                 continue
             for r in st0.locks:
-                gap = [e for e in p.events if e["k"] in ("REL", "ACQ", "TRY") and e.get("recv") == r]
+                gap = _x4_gap(p.events, r)
                 if gap:
                     bad = "%s is %s between the guard handed in and the guard handed back (path: %s)" % (
                         ctx.arg_name(f, r), "released" if gap[0]["k"] == "REL" else "re-acquired", p.trace()[:300])
@@ -632,6 +649,77 @@ def rule_X4(ctx, R):
         else:
             res.ok(f["path"])
     res.notes.append("%d guard-to-guard functions" % n)
+    # the expected count on this tree is zero: keep the predicate honest with a built-in positive example on every run
+    # (release + try of the consumed guard's lock, as in a non-atomic `try_upgrade`) and a negative one
+    pos = [{"k": "REL", "recv": "a1.0.0.*", "mode": "R", "i": 0}, {"k": "TRY", "recv": "a1.0.0.*", "mode": "W", "i": 1}]
+    neg = [{"k": "REL", "recv": "a1.0.0.*", "mode": "W", "i": 0}, {"k": "USER", "i": 1}, {"k": "ACQ", "recv": "a1.0.0.*", "mode": "W", "i": 2}]
+    if not _x4_gap(pos, "a1.0.0.*") or _x4_gap(neg, "a1.0.0.*"):
+        res.undecided("<X4>", "selfcheck", "the continuity predicate does not recognise its own positive example")
+    else:
+        res.ok("positive control: release + re-acquire of the consumed guard's lock is recognised")
+    res.need(1, "continuity predicate control")
+    return res
+
+
+def rule_R8(ctx, R):
+    """nothing of the user's runs between giving the key up and releasing the locks."""
+    res = RuleResult("R8", "once a function has given up the key it was handed (the key parameter is dropped), no user code runs - "
+                           "no user callable is invoked and no value of a user-chosen type is destroyed - while a lock acquired by "
+                           "the call is still held: such code could obtain the thread's key and lock something else while holding")
+    from rules_ts import entry_fns
+    n = 0
+    for f in entry_fns(ctx):
+        if f.get("unsafe") or "inputs" not in f:
+            continue
+        ks = [k for k in R.key_inputs(f) if k[1] in ("owned", "keyable")]
+        if not ks:
+            continue
+        paths, err, I = ctx.paths(f)
+        if err or not paths:
+            continue
+        if not any(e["k"] in ("ACQ", "TRY") for p in paths for e in p.events):
+            continue
+        n += 1
+        koid = "a%d" % ks[0][0]
+        bad = None
+        for p in paths:
+            if p.kind == "cut":
+                continue
+            kd = next((e for e in p.events if e["k"] in ("DROPP", "KEYDROP") and e.get("val") == koid), None)
+            if kd is None:
+                continue
+            held = {}
+            for e in p.events:
+                if e["i"] > kd["i"]:
+                    break
+                if e["k"] == "ACQ" or (e["k"] == "TRY" and e.get("outcome") is True):
+                    held[e["recv"]] = e["i"]
+                elif e["k"] in ("REL", "KILL") and e.get("recv") in held:
+                    del held[e["recv"]]
+            if not held:
+                continue
+            for e in p.events:
+                if e["i"] <= kd["i"]:
+                    continue
+                if e["k"] in ("REL", "KILL") and e.get("recv") in held:
+                    del held[e["recv"]]
+                    if not held:
+                        break
+                    continue
+                user = e["k"] == "USER" or (e["k"] == "DROPP" and e.get("val") != koid and not str(e.get("val", "")).startswith(koid + ".")
+                                            and e.get("ty") not in R.keyable_params(f))
+                if user:
+                    what = "a user callable is invoked" if e["k"] == "USER" else "a value of the user-chosen type %s is destroyed" % e.get("ty")
+                    bad = "%s after the key was given up and before %s is released (path: %s)" % (
+                        what, ", ".join(ctx.arg_name(f, r) for r in held), p.trace()[:300])
+                    break
+            if bad:
+                break
+        if bad:
+            res.bad(Violation("R8", f["path"], "user-code-after-key", bad, *_fnloc(ctx, f)))
+        else:
+            res.ok(f["path"])
+    res.need(26, "acquiring functions that take the key")
     return res
 
 
